@@ -59,6 +59,7 @@ let hstep_ s = match tag s with
   | ("set", [p; c]) -> M.HSet (project_ p, config_ c)
   | ("delete", [f]) -> M.HDelete (fname_ f)
   | ("dropcache", []) -> M.HDropCache
+  | ("corrupt", [f]) -> M.HCorrupt (fname_ f)
   | ("run", [w; flag; fault]) -> M.HRun (sched_ w, bool_ flag, opt_ nat_ fault)
   | _ -> failwith "hstep"
 let of_obs (o : M.hobs) =
